@@ -490,6 +490,8 @@ VF_ET_ARITH(int32_t, 30000)
 VF_ET_ARITH(uint8_t, 255)
 VF_ET_ARITH(int64_t, 30000)
 VF_ET_ARITH(int16_t, 30000)
+VF_ET_ARITH(uint16_t, 30000)
+VF_ET_ARITH(char, 127)
 
 template <class E>
 inline int val_of(const E &e) {
